@@ -70,6 +70,7 @@ func (ip IPv4) SetLen(b []byte, n int) {
 
 // SetAddrs sets the source and destination address
 func (ip IPv4) SetAddrs(b []byte, src, dst net.IP) {
-	copy(b[12:16], src[12:16])
-	copy(b[16:20], dst[12:16])
+	// the addresses come in 4-byte or 16-byte form
+	copy(b[12:16], src.To4())
+	copy(b[16:20], dst.To4())
 }
